@@ -38,10 +38,12 @@ pub struct Caps {
     pub max_states: usize,
     pub max_wall_s: f64,
     pub max_violations: usize,
+    /// violations another run of the same exploration owns: not recorded, do not count towards the cap
+    pub not_mine: Option<fn(&str) -> bool>,
 }
 impl Default for Caps {
     fn default() -> Self {
-        Caps { max_depth: usize::MAX, max_states: 20_000_000, max_wall_s: 3600.0, max_violations: 8 }
+        Caps { max_depth: usize::MAX, max_states: 20_000_000, max_wall_s: 3600.0, max_violations: 8, not_mine: None }
     }
 }
 
@@ -184,6 +186,9 @@ pub fn bfs<S: System>(sys: &S, caps: &Caps) -> (Stats, Vec<Found<S::Op>>) {
                 stats.boundary_states += 1;
             }
             for (op, m) in out.viol {
+                if caps.not_mine.map_or(false, |f| f(&m)) {
+                    continue;
+                }
                 if found.len() < caps.max_violations {
                     let mut ops = history(&arena, id);
                     // a state-invariant violation is attributed to the history itself
